@@ -117,14 +117,48 @@ def class_constants(cls: ast.ClassDef, prefix: str | None = None) -> dict:
 # ---- expression / statement translation -------------------------------------------------------
 
 class Tr:
-    def __init__(self, types: dict, env: dict, calls: dict, strs: dict | None = None):
+    def __init__(self, types: dict, env: dict, calls: dict, strs: dict | None = None,
+                 helpers: dict | None = None, _depth: int = 0):
         """types: local name -> type tag; env: dotted name -> (coq term, type tag);
         calls: dotted callee -> fn(tr, node) -> (coq term, type tag);
-        strs: python string constant -> (coq term, type tag) (for enum-like strings)."""
+        strs: python string constant -> (coq term, type tag) (for enum-like strings);
+        helpers: name -> ast.FunctionDef of module-level pure helper functions that may be INLINED at a call
+        (positional/keyword arguments for plain parameters, body = docstring? + if/assign/return statements)."""
         self.types = dict(types)
         self.env = env
         self.calls = calls
         self.strs = strs or {}
+        self.helpers = helpers or {}
+        self._depth = _depth
+
+    def inline(self, fn: ast.FunctionDef, call: ast.Call) -> tuple[str, str]:
+        """Translate a call of a module-level helper by inlining its body (fail-closed on anything unusual)."""
+        if self._depth > 4:
+            raise Untranslatable(f"helper {fn.name}: inlining too deep (recursion?)")
+        a = fn.args
+        if fn.decorator_list or a.vararg or a.kwarg or a.kwonlyargs or a.posonlyargs or a.defaults or a.kw_defaults:
+            raise Untranslatable(f"helper {fn.name}: unsupported signature")
+        params = [x.arg for x in a.args]
+        if any(isinstance(x, ast.Starred) for x in call.args) or any(k.arg is None for k in call.keywords):
+            raise Untranslatable(f"helper {fn.name}: star arguments")
+        actual = dict(zip(params, call.args))
+        if len(call.args) > len(params):
+            raise Untranslatable(f"helper {fn.name}: too many arguments")
+        for k in call.keywords:
+            if k.arg not in params or k.arg in actual:
+                raise Untranslatable(f"helper {fn.name}: keyword {k.arg}")
+            actual[k.arg] = k.value
+        if set(actual) != set(params):
+            raise Untranslatable(f"helper {fn.name}: missing arguments")
+        for n in ast.walk(fn):
+            if isinstance(n, (ast.Global, ast.Nonlocal, ast.Yield, ast.YieldFrom, ast.Await, ast.Lambda)):
+                raise Untranslatable(f"helper {fn.name}: not a plain function")
+        vals = [(p, self.e(actual[p])) for p in params]          # evaluated in the caller's scope
+        sub = Tr({p: t for p, (_, t) in vals}, self.env, self.calls, self.strs, self.helpers, self._depth + 1)
+        body, tb = sub.body(list(fn.body))
+        pre = "".join(f"let {fn.name}__{p} := {v} in " for p, (v, _) in vals)
+        mid = "".join(f"let {p} := {fn.name}__{p} in " for p in params)
+        return f"({pre}{mid}{body})", tb
 
     def e(self, n) -> tuple[str, str]:
         if isinstance(n, ast.Constant):
@@ -232,6 +266,8 @@ class Tr:
                 pass
             if d in self.calls:
                 return self.calls[d](self, n)
+            if d in self.helpers:
+                return self.inline(self.helpers[d], n)
             raise Untranslatable(f"call to {d or ast.dump(n.func)[:60]}")
         if isinstance(n, ast.Attribute):
             # attribute of a non-name (e.g. F.lit(abs(x)).expression)
@@ -277,6 +313,11 @@ class Tr:
                 raise Untranslatable(f"if-branches return {ta} / {tb}")
             return f"(if {c} then {a} else {b})", ta
         raise Untranslatable("statement " + type(s).__name__)
+
+
+def module_helpers(tree: ast.Module) -> dict:
+    """module-level plain functions (candidates for inlining by Tr)"""
+    return {st.name: st for st in tree.body if isinstance(st, ast.FunctionDef)}
 
 
 def _returns(stmts) -> bool:
